@@ -38,11 +38,12 @@ Proof.
 Qed.
 Print Assumptions C04_grouping_v10_refuted.
 
-(* FULL STATEMENT (non-associativity is enforced): complete20 = true /\ complete31 = true.
-   False: '1 = 2 eq 3', 'a << b << c', 'a is b = c' are accepted (known finding C04-mixed-comparison-chains). *)
-Theorem C04_nonassoc_enforced_refuted : complete20 = false /\ complete31 = false.
-Proof. vm_compute. split; reflexivity. Qed.
-Print Assumptions C04_nonassoc_enforced_refuted.
+(* non-associativity is enforced: every operator of a non-associative level rejects, as its left operand, every
+   operator of that level (for comparisons: all fifteen general / value / node comparison operators) - decided on the
+   conflict tables regenerated from the led methods of /repo *)
+Theorem C04_nonassoc_enforced : complete20 = true /\ complete30 = true /\ complete31 = true.
+Proof. vm_compute. repeat split; reflexivity. Qed.
+Print Assumptions C04_nonassoc_enforced.
 
 Example C04_nonvacuous :
   canon31 0 (Bin op31 O_or_31 (Atom op31 1)
